@@ -81,6 +81,25 @@ def h_time(params):
 
         n = params.get("n", 2)
         kinds = params.get("kinds", ["sym"] * n)
+        if params.get("multi"):
+            # all points through ONE insert_multiple call (any order within the batch), after one earlier point
+            t0, i0 = mk_kind(h, "utc", "t")
+            h.db.insert(Point(time=t0, measurement="m", tags={"k": "b"}))
+            h.model.insert(MP(i0, "m", {"k": "b"}, {}))
+            pts = []
+            for i in range(n):
+                kind = kinds[i] if kinds[i] != "sym" else KINDS[choose(h.name("kind"), 3)]
+                t, inst = mk_kind(h, kind, "t")
+                tagv = ("a", "b")[choose(h.name("g"), 2)]
+                pts.append(Point(time=t, measurement="m", tags={"k": tagv}))
+                h.model.insert(MP(inst, "m", {"k": tagv}, {}))
+            try:
+                tgt = h.db.measurement("m") if params.get("multi") == "handle" else h.db
+                r = tgt.insert_multiple(iter(pts))
+            except Exception as e:
+                fail(lambda: f"insert_multiple raised {type(e).__name__}: {e}")
+            require(r == n, lambda: f"insert_multiple returned {r}")
+            n = 0
         for i in range(n):
             kind = kinds[i]
             if kind == "sym":
@@ -171,6 +190,8 @@ def obligations(tier):
     for cname, ai, rx in CONFIGS:
         for rhs in KINDS:
             obs.append(_ob(f"insert/sym-kinds/rhs-{rhs}/{cname}", ai=ai, reindex=rx, n=2, rhs=rhs))
+        obs.append(_ob(f"insert_multiple/utc/{cname}", ai=ai, reindex=rx, n=2, kinds=["utc", "utc"], rhs="utc", multi=True))
+        obs.append(_ob(f"insert_multiple/kinds/{cname}", ai=ai, reindex=rx, n=2, rhs="utc", multi="handle"))
         obs.append(_ob(f"insert/3points-utc/{cname}", ai=ai, reindex=rx, n=3, kinds=["utc", "utc", "utc"], rhs="utc"))
         obs.append(_ob(f"insert/clock/{cname}", ai=ai, reindex=rx, n=3, kinds=["none", "utc", "none"], rhs="utc"))
         for how in ("static", "callable"):
